@@ -32,6 +32,8 @@ def sc_net(rng, pp, with_trafo):
     egb = rng.sample(b, rng.randint(1, 2))
     if rng.random() < 0.5:
         egb = sorted(egb, reverse=True)
+    if rng.random() < 0.35:
+        egb.append(egb[0])          # two feeders at one bus
     for bb in egb:
         pp.create_ext_grid(net, bb, s_sc_max_mva=rng.choice([800., 2500., 5000.]), s_sc_min_mva=500., rx_max=rng.choice([0.1, 0.3]),
                            rx_min=0.2)
